@@ -171,7 +171,13 @@ def run(P, R):
     u = P.unit('Starter.start_applications')
     fm = factmap(u)
     sc = [c for c in own_nodes(u.node) if isinstance(c, ast.Call) and call_text(c) == 'self.store_application']
-    ok = len(sc) == 1 and any(f[1] and f[0] == 'application.rules.start_sequence > 0' for f in fm.at(sc[0]))
+    # (whatever the spelling - `> 0` around the call or `<= 0: continue` in front of it - the facts at the call are
+    # contradicted by the values 0 and -1 and satisfied by 1)
+    from ..paths import holds_when
+    seqf = {(f[0], f[1]) for f in fm.at(sc[0]) if 'application.rules.start_sequence' in f[0]} if len(sc) == 1 else set()
+    K = 'application.rules.start_sequence'
+    ok = len(sc) == 1 and bool(seqf) and holds_when(seqf, {K: 0}) is False and holds_when(seqf, {K: -1}) is False and \
+        holds_when(seqf, {K: 1}) is True
     R.check(r3, ok, 'automatic start only for applications with start_sequence > 0', 'seq0|start_applications', u.loc(),
             'Starter.start_applications stores an application without the fact rules.start_sequence > 0')
     u = P.unit('ApplicationStatus.get_start_sequenced_processes')
